@@ -13,6 +13,11 @@ A node (class N) is
                 ('plain',) ('dnc',) ('unspec',) ('with', cexpr)
                 ('convert', user_requested, recursive, cmgr) ('internal', cexpr, convert_by_default, user_requested)
                 ('scope', user_requested) ('lscope', user_requested) ('tograph', recursive)
+                ('artifact',)  autograph_artifact(<a private copy of f>)
+                ('inner',)     an inner function handed out by converted code (to_graph(inner_factory)(f))
+    outer     wrappers stacked around the callable `kind` yields, outermost first (decorators on decorators):
+              the same kinds except plain / tograph; their context arguments are evaluated when the callable
+              is built, i.e. at the call site, like decorators evaluated at definition time
               cexpr = ('fresh', status) | ('at', n) | ('global', status) ; cmgr = ('null',) | cexpr
     dyn       the node's function is the exec()'d twin of `body` (code filename '<string>':
               malt runs such functions unconverted)
@@ -26,6 +31,7 @@ every probe records the object returned by malt's public control_status_ctx().
 """
 import sys
 import threading
+import types
 
 from malt.core import ag_ctx
 from malt.core import converter
@@ -46,9 +52,10 @@ class BBoom(BaseException):
 
 
 class N(object):
-    __slots__ = ('lbl', 'kind', 'dyn', 'catches', 'raise_at', 'exc', 'children', 'rec')
+    __slots__ = ('lbl', 'kind', 'dyn', 'catches', 'raise_at', 'exc', 'children', 'rec', 'outer')
 
-    def __init__(self, lbl, kind, dyn, catches, raise_at, exc, children):
+    def __init__(self, lbl, kind, dyn, catches, raise_at, exc, children, outer=()):
+        self.outer = tuple(outer)
         self.lbl = lbl
         self.kind = kind
         self.dyn = dyn
@@ -137,12 +144,33 @@ def evalc(rec, ce):
     raise ValueError(ce)
 
 
+def _copy_fn(fn):
+    return types.FunctionType(fn.__code__, fn.__globals__, fn.__name__, fn.__defaults__, fn.__closure__)
+
+
+def inner_factory(fn):
+  def inner(n):
+    return fn(n)
+  return inner
+
+
 def make_callable(rec, ch):
     """The callable through which the parent invokes node `ch` (called as callable(ch))."""
-    fn = body_dyn if ch.dyn else body
-    k = ch.kind
+    g = apply_kind(rec, ch.kind, body_dyn if ch.dyn else body, ch.dyn)
+    for k in reversed(ch.outer):
+        g = apply_kind(rec, k, g, ch.dyn)
+    return g
+
+
+def apply_kind(rec, k, fn, dyn):
     if k[0] == 'plain':
         return fn
+    if k[0] == 'artifact':
+        if getattr(fn, '__name__', '') == 'body' and not api.is_autograph_artifact(fn):
+            fn = _copy_fn(fn)       # never mark the shared `body`
+        return api.autograph_artifact(fn)
+    if k[0] == 'inner':
+        return api.to_graph(inner_factory)(fn)
     if k[0] == 'dnc':
         return api.do_not_convert(fn)
     if k[0] == 'unspec':
@@ -174,7 +202,7 @@ def make_callable(rec, ch):
             return function_wrappers.with_function_scope(lambda scope: fn(m), 'lscope', opts)
         return api.autograph_artifact(ls)
     if k[0] == 'tograph':
-        if ch.dyn:
+        if dyn:
             # no source code: to_graph itself refuses (before anything is called)
             try:
                 g = api.to_graph(fn, recursive=k[1])
